@@ -65,8 +65,12 @@ Fixpoint verify_rewriters (schema : list bytes) (l : list rewriter_cfg) : bool :
   | rc :: rest => verify_rewriter schema rc (negb (is_nil rest)) && verify_rewriters schema rest
   end.
 
+(* environmentFields non-empty; every environment field and every hidden field is a schema field
+   (schema.CreateFieldLocators); every rewritten field is a schema field with a valid chain *)
 Definition verify_config (schema : list bytes) (cfg : ser_config) : bool :=
   negb (is_nil (c_env cfg)) &&
+  forallb (has_name schema) (c_env cfg) &&
+  forallb (has_name schema) (c_hidden cfg) &&
   forallb (fun kv => has_name schema (fst kv) && verify_rewriters schema (snd kv)) (c_rewrite cfg).
 
 (* ---------- rewriters ---------- *)
